@@ -2,8 +2,10 @@
 from __future__ import annotations
 
 import copy
+import itertools
 import math
 import warnings
+from collections import defaultdict
 from fractions import Fraction
 
 import numpy as np
@@ -68,22 +70,229 @@ def points(rng, dim, n):
     return out
 
 
+# ====================================================================== facade / refusal / radius case kinds
+# facade function -> (class, prefix of the `<prefix>_bins` / `<prefix>_range` keyword of every axis; "" = `bins` / `range`)
+FACADES = {
+    "polar": ("PolarHistogram", ["radial", "phi"]),
+    "azimuthal": ("AzimuthalHistogram", [""]),
+    "radial": ("RadialHistogram", [""]),
+    "spherical": ("SphericalHistogram", ["radial", "theta", "phi"]),
+    "spherical_surface": ("SphericalSurfaceHistogram", ["theta", "phi"]),
+    "cylindrical": ("CylindricalHistogram", ["rho", "phi", "z"]),
+    "cylindrical_surface": ("CylindricalSurfaceHistogram", ["phi", "z"]),
+}
+FACADE_OF = {v[0]: k for k, v in FACADES.items()}
+ANGLE_FULL = {"phi": (0.0, TWO_PI), "theta": (0.0, math.pi)}
+DEFAULT_ANGLE_BINS = 16
+METHODS = ["numpy", "pretty", "fixed_width", "integer", "sqrt", "sturges"]
+# not generated, because the unchanged library fails there for reasons outside this property (reported, not repaired):
+#  * radial(x, y, bins="integer") without range raises TypeError (the facade hands range=None on to integer_binning):
+#    generated with a range only;
+#  * cylindrical_surface(list of rows) without radius raises TypeError (data[:, 0] on a list) -- the (n, 3) facades get ndarrays;
+#  * 1-D classes flatten 2-D input with transformed=True (azimuthal(ones((6, 2)), transformed=True) counts 12 angles), as
+#    Histogram1D does with any input: not listed among the calls that must be refused.
+RANGE_REQUIRED = {("radial", "integer")}
+RANGE_METHODS = ("numpy", "pretty", "fixed_width", "integer")
+RADIUS_CLASSES = ["AzimuthalHistogram", "SphericalSurfaceHistogram", "CylindricalSurfaceHistogram"]
+EDGE_TOL = 1e-9
+
+
+def data_dependent(s, kd):
+    """are the bins of this axis computed from the data?"""
+    if s["t"] == "edges":
+        return False
+    if kd in ANGLE_FULL:
+        return False                      # int / default angular bins: linspace of the (default) range
+    if s["t"] == "default":
+        return True
+    return s.get("range") is None or (s["t"] == "method" and s["name"] in ("sqrt", "sturges"))
+
+
+def facade_kwargs(case):
+    _, prefixes = FACADES[case["facade"]]
+    kw = {}
+    for s, pre in zip(case["spec"], prefixes):
+        bname, rname = (pre + "_bins", pre + "_range") if pre else ("bins", "range")
+        if s["t"] == "int":
+            kw[bname] = int(s["n"])
+        elif s["t"] == "edges":
+            kw[bname] = np.array(s["e"], dtype=float)
+        elif s["t"] == "method":
+            kw[bname] = s["name"]
+        if s["t"] in ("int", "method") and s.get("range") is not None:
+            kw[rname] = (float(s["range"][0]), float(s["range"][1]))
+    kw.update(case.get("method_kw") or {})
+    if case.get("radius") is not None:
+        kw["radius"] = case["radius"]
+    return kw
+
+
+def call_facade(sp, case, D, ws, dropna, transformed):
+    """D: the Cartesian points (n, dim) or, with transformed, their coordinates (n, ndim of the histogram)"""
+    fn = case["facade"]
+    kw = facade_kwargs(case)
+    kw["dropna"] = dropna
+    if ws is not None:
+        kw["weights"] = np.array(ws, dtype=float)
+    if transformed:
+        kw["transformed"] = True
+    f = getattr(sp, fn)
+    if fn == "polar":
+        return f(D[:, 0].copy(), D[:, 1].copy(), **kw)
+    if fn == "azimuthal":
+        return f(D[:, 0].copy(), **kw) if transformed else f(D[:, 0].copy(), D[:, 1].copy(), **kw)
+    if fn == "radial":
+        if transformed:
+            return f(D[:, 0].copy(), **kw)
+        if case["form"] == "array":
+            return f(D.copy(), **kw)
+        return f(*[D[:, i].copy() for i in range(D.shape[1])], **kw)
+    return f(D.copy(), **kw)
+
+
+def pairs_of(snapshot):
+    """bins of a snapshot as floats: per axis a list of (left, right)"""
+    return [[(float(Fraction(l)), float(Fraction(r))) for l, r in ax] for ax in snapshot["bins"]]
+
+
+def edges_of(pairs):
+    """edge list of one axis if its bins are consecutive, else None"""
+    if not pairs or any(pairs[i][1] != pairs[i + 1][0] for i in range(len(pairs) - 1)):
+        return None
+    return [pairs[0][0]] + [r for _, r in pairs]
+
+
+def axis_candidates(v, E):
+    """regions of a consecutive axis that may hold the coordinate v: -1 below, 0..nb-1 the bins, nb above; a value within
+    EDGE_TOL (relative, at least absolute 1e-9) of an edge belongs to either side"""
+    nb = len(E) - 1
+    out = []
+    for i in range(-1, nb + 1):
+        lo = -math.inf if i < 0 else E[i]
+        hi = E[0] if i < 0 else (math.inf if i == nb else E[i + 1])
+        tl = 0.0 if math.isinf(lo) else EDGE_TOL * max(1.0, abs(v), abs(lo))
+        th = 0.0 if math.isinf(hi) else EDGE_TOL * max(1.0, abs(v), abs(hi))
+        if lo - tl <= v <= hi + th:
+            out.append(i)
+    return out
+
+
+def slot(combo, nbs):
+    """where a tuple of per-axis regions is counted: a cell, or (1-D) 'under' / 'over', or (N-D) 'missed'"""
+    if len(nbs) == 1:
+        i = combo[0]
+        return "under" if i < 0 else ("over" if i >= nbs[0] else (i,))
+    return "missed" if any(i < 0 or i >= nb for i, nb in zip(combo, nbs)) else tuple(combo)
+
+
+def expected_bounds(E, coords, ws):
+    """independent count: for every slot the weight that must be there (points strictly inside) and the weight that may be
+    there in addition (points within rounding of an edge). Returns lower / upper bounds for contents and errors2, the
+    slots every point may be in, and whether any point is ambiguous."""
+    nbs = [len(e) - 1 for e in E]
+    L, U, L2, U2 = defaultdict(Fraction), defaultdict(Fraction), defaultdict(Fraction), defaultdict(Fraction)
+    per_point, ambiguous = [], False
+    for t, w in zip(coords, ws):
+        cands = [axis_candidates(v, e) for v, e in zip(t, E)]
+        slots = {slot(c, nbs) for c in itertools.product(*cands)}
+        per_point.append(slots)
+        w = Fraction(w)
+        if len(slots) == 1:
+            k = next(iter(slots))
+            L[k] += w; L2[k] += w * w
+        else:
+            ambiguous = True
+        for k in slots:
+            U[k] += w; U2[k] += w * w
+    return L, U, L2, U2, per_point, ambiguous
+
+
+def check_counts(name, S, nbs, bounds, total_w):
+    """contents of snapshot S against the independent bounds"""
+    L, U, L2, U2 = bounds[:4]
+    fails = []
+    if list(S["shape"]) != list(nbs):
+        return [f"shape: {name} has shape {S['shape']}, its bins {nbs}"]
+    F = [Fraction(x) for x in S["freq"]]
+    E2 = [Fraction(x) for x in S["err2"]]
+    for n, cell in enumerate(itertools.product(*[range(nb) for nb in nbs])):
+        if not (L[cell] <= F[n] <= U[cell]):
+            fails.append(f"wrong_bin: {name}: bin {list(cell)} holds {float(F[n])}, the points with true coordinates inside it weigh "
+                         f"{float(L[cell])}" + (f" (up to {float(U[cell])} with points on its edges)" if U[cell] != L[cell] else ""))
+            break
+        if not (L2[cell] <= E2[n] <= U2[cell]):
+            fails.append(f"wrong_err2: {name}: bin {list(cell)} has errors2 {float(E2[n])}, expected {float(L2[cell])}..{float(U2[cell])}")
+            break
+    missed = Fraction(S["missed"]) if S["missed"] not in (None, "inf", "-inf") else None
+    if len(nbs) == 1:
+        for k, f in (("under", "under"), ("over", "over")):
+            v = Fraction(S[f]) if S.get(f) is not None else None
+            if v is None or not (L[k] <= v <= U[k]):
+                fails.append(f"outside_range: {name}: {k}flow = {S.get(f)}, the points outside on that side weigh {float(L[k])}..{float(U[k])}")
+    elif missed is None or not (L["missed"] <= missed <= U["missed"]):
+        fails.append(f"outside_range: {name}: missed = {S['missed']}, the points outside the bins weigh {float(L['missed'])}..{float(U['missed'])}")
+    if missed is not None and sum(F) + missed != total_w:
+        fails.append(f"lost_weight: {name}: contents {float(sum(F))} + missed {float(missed)} != entered weight {float(total_w)}")
+    return fails
+
+
+def same_counts(a, b, keys=("bins", "shape", "freq", "err2", "missed", "under", "over")):
+    """first observable in which two snapshots differ (numbers compared as exact rationals), else None"""
+    def norm(v):
+        if isinstance(v, list):
+            return [norm(x) for x in v]
+        if isinstance(v, str) and v not in ("inf", "-inf"):
+            return Fraction(v)
+        return v
+    for k in keys:
+        if k in a or k in b:
+            if norm(a.get(k)) != norm(b.get(k)):
+                return k
+    return None
+
+
+def rnd_data(rng, shape):
+    if not shape:
+        return round(rng.uniform(0.1, 2.0), 3)
+    return [rnd_data(rng, shape[1:]) for _ in range(shape[0])]
+
+
 class C15:
     ID = "C15"
-    N_QUICK = 250
-    N_THOROUGH = 6000
-    N_SEARCH = 250
+    N_QUICK = 520
+    N_THOROUGH = 12000
+    N_SEARCH = 400
     RULE = ("the six transformed classes (+ cylinder surface) with irregular bins in their own coordinates (full or partial "
             "angular ranges) x Cartesian points in all quadrants / octants, on axes and coordinate planes, at the origin, with "
             "signed zeros, on the negative x half-axis x entry paths: Class.transform, find_bin / fill of single points, fill_n "
             "of arrays (the same array entered twice), the same with already transformed coordinates (transformed=True), the "
-            "facade function (weights, dropna) x every projection; wrong dimensionality. non-trivial = points in at least two "
-            "different bins; distinct = case hash")
+            "facade function (weights, dropna) x every projection; wrong dimensionality. "
+            "kind facade: every facade function with integer bin counts and explicit / default / partial angular ranges, radial / z "
+            "bins as int, int + range, edge array, default or a method name (+ keyword) x input forms (columns, array): edges of "
+            "the angular axes, every point counted where its true coordinates lie (points within 1e-9 of an edge on either "
+            "side), points outside missed, the same histogram from the class with those edges + fill / fill_n, from the facade "
+            "with transformed=True, and by filling the facade's histogram again. kind baddims: a filled histogram and 6-11 calls "
+            "(each of fill, fill_n, find_bin, transform; for N-d classes the first three also with transformed=True; the facade "
+            "of the class 2-4 times) with a wrong number of columns (the neighbours of the right number three times as likely), a "
+            "scalar, a 3-D array or superfluous ydata / zdata: refused and the histogram unchanged. kind radius: radius get / "
+            "set (class and facade keyword) leaves bins, contents and find_bin alone. non-trivial = points in at least two "
+            "different bins (special, facade), at least one invalid call (baddims), a non-empty histogram (radius); "
+            "distinct = case hash")
     ASSUMPTIONS = ["libm hypot / atan2 / cos are accurate to a few ulps; transformed coordinates are compared within 4 ulps, "
                    "bins exactly on the implementation's own coordinates"]
     EXTRA_TRUST = ["the coordinate theorems are over the real numbers with Complex.arg as atan2; floating-point evaluation is checked by correspondence"]
 
     def gen_case(self, rng, k, tier):
+        r = rng.random()
+        if r < 0.45:
+            return self.gen_special(rng)
+        if r < 0.78:
+            return self.gen_facade(rng)
+        if r < 0.93:
+            return self.gen_baddims(rng)
+        return self.gen_radius(rng)
+
+    def gen_special(self, rng):
         klass = rng.choice(list(SRC_DIM))
         dim = rng.choice(SRC_DIM[klass])
         full = rng.random() < 0.6
@@ -94,10 +303,13 @@ class C15:
         if rng.random() < 0.3:
             ws = [rng.choice([1, 2, 0.5]) for _ in range(n)]
         return {"kind": "special", "class": klass, "dim": dim, "axes": [[float(x) for x in e] for e in axes], "points": pts,
-                "weights": ws, "nan_row": rng.random() < 0.15, "tags": ["class:" + klass, f"dim:{dim}"]}
+                "weights": ws, "nan_row": rng.random() < 0.15, "tags": ["kind:special", "class:" + klass, f"dim:{dim}"]}
 
     # ------------------------------------------------------------------ implementation
     def run_impl(self, case):
+        return getattr(self, "run_" + case.get("kind", "special"))(case)
+
+    def run_special(self, case):
         from physt import special_histograms as sp
         klass = getattr(sp, case["class"])
         log = []
@@ -203,14 +415,483 @@ class C15:
             return sp.cylindrical_surface(P, phi_bins=edges[0], z_bins=edges[1], **kw)
         raise KeyError(klass)
 
+    # ================================================================== kind "facade": integer bin counts, ranges, method names
+    def gen_facade(self, rng):
+        fn = rng.choice(list(FACADES))
+        klass, _ = FACADES[fn]
+        kinds = KIND[klass]
+        dim = rng.choice(SRC_DIM[klass])
+        form = "array" if fn not in ("polar", "azimuthal", "radial") else ("cols" if dim == 2 else rng.choice(["cols", "array"]))
+        method = rng.choice(METHODS)
+        tags = ["kind:facade", "facade:" + fn, f"dim:{dim}", "form:" + form]
+        spec, method_kw = [], {}
+        for kd in kinds:
+            r = rng.random()
+            if kd in ANGLE_FULL:
+                top = ANGLE_FULL[kd][1]
+                if r < 0.15:
+                    s = {"t": "edges", "e": [float(x) for x in axis_edges(rng, kd, rng.random() < 0.5)]}
+                elif r < 0.25:
+                    s = {"t": "default"}
+                else:
+                    q = rng.random()
+                    if q < 0.35:
+                        rg = None
+                    elif q < 0.45:
+                        rg = [0.0, top]
+                    else:
+                        lo = rng.uniform(-0.5 if kd == "phi" else 0.0, 0.7 * top)
+                        rg = [lo, lo + rng.uniform(0.3, top - max(lo, 0.0))]
+                    s = {"t": "int", "n": rng.choice([1, 2, 3, 4, 6, 8, 16]), "range": rg}
+                    tags.append("range:" + ("default" if rg is None else ("full" if q < 0.45 else "partial")))
+            else:
+                if kd == "r":
+                    lo = rng.choice([0.0, rng.uniform(0.0, 1.0)])
+                else:
+                    lo = rng.uniform(-3.0, 1.0)
+                rg = [lo, lo + rng.uniform(0.5, 4.0)] if (rng.random() < 0.5 or (fn, method) in RANGE_REQUIRED) else None
+                if r < 0.3:
+                    s = {"t": "int", "n": rng.choice([1, 2, 3, 5]), "range": rg}
+                elif r < 0.5:
+                    s = {"t": "edges", "e": [float(x) for x in axis_edges(rng, kd, rng.random() < 0.5)]}
+                elif r < 0.6:
+                    s = {"t": "default"}
+                else:
+                    s = {"t": "method", "name": method, "range": rg if method in RANGE_METHODS else None}
+                    if method == "fixed_width":
+                        method_kw = {"bin_width": rng.choice([0.25, 0.5, 1.0, 0.3])}
+                    tags.append("method:" + method)
+                if s["t"] in ("int", "method"):
+                    tags.append("rz_range:" + ("from_data" if s["range"] is None else "given"))
+            tags.append("bins:" + s["t"])
+            spec.append(s)
+        n = rng.choice([2, 4, 8, 15, 30])
+        pts = points(rng, dim, n)
+        if any(data_dependent(s, kd) for s, kd in zip(spec, kinds)):
+            pts += [[rng.uniform(-3, 3) for _ in range(dim)] for _ in range(2)]     # bins from data need two different values
+        ws = [rng.choice([1, 2, 0.5]) for _ in pts] if rng.random() < 0.3 else None
+        nan_row = rng.random() < 0.15
+        radius = round(rng.uniform(0.5, 3.0), 2) if fn in ("spherical_surface", "cylindrical_surface") and rng.random() < 0.3 else None
+        if nan_row:
+            tags.append("nan_row")
+        return {"kind": "facade", "facade": fn, "class": klass, "dim": dim, "form": form, "spec": spec, "method_kw": method_kw,
+                "points": pts, "weights": ws, "nan_row": nan_row, "dropna": True if nan_row else rng.random() < 0.5,
+                "radius": radius, "tags": sorted(set(tags))}
+
+    def run_facade(self, case):
+        from physt import special_histograms as sp
+        klass = getattr(sp, case["class"])
+        nd = len(KIND[case["class"]])
+        log, out = [], {"dyn_tags": []}
+        P = np.array(case["points"], dtype=float)
+        ws = case["weights"]
+        W = None if ws is None else np.array(ws, dtype=float)
+        T = np.asarray(klass.transform(P), dtype=float).reshape(len(P), -1)
+        out["transformed"] = [[nrs(x) for x in row] for row in T]
+        D, DT, wsin = P, T, ws
+        if case["nan_row"]:
+            D = np.vstack([P, np.full((1, P.shape[1]), np.nan)])
+            DT = np.vstack([T, np.full((1, T.shape[1]), np.nan)])
+            wsin = None if ws is None else list(ws) + [7]
+
+        def snap(h):
+            s = implnd.snapn(h)
+            s = {k: s[k] for k in ("bins", "freq", "err2", "missed", "shape", "_class")}
+            if nd == 1:
+                s["under"], s["over"] = nrs(h.underflow), nrs(h.overflow)
+            return s
+
+        def idx(i):
+            if i is None:
+                return None
+            return [int(j) for j in np.atleast_1d(i)] if nd > 1 else int(i)
+
+        def attempt(name, f):
+            try:
+                return f()
+            except Exception as ex:
+                log.append(f"{name}: {type(ex).__name__}: {ex}"[:200])
+                return None
+        h = attempt("facade", lambda: call_facade(sp, case, D, wsin, case["dropna"], False))
+        if h is None:
+            out["facade"] = None
+            return {"outs": out, "log": log}
+        out["facade"] = out["h"] = snap(h)
+        out["radius"] = attempt("radius", lambda: str(np.asarray(getattr(h, "radius", None)).ravel()[:1].tolist()))
+        ht = attempt("facade(transformed=True)", lambda: call_facade(sp, case, DT, wsin, case["dropna"], True))
+        out["h_t"] = None if ht is None else snap(ht)
+        # the facade's histogram: find_bin, fill and fill_n of the same points once more
+        before = snap(h)
+        out["rets_find"] = attempt("find_bin", lambda: [idx(h.find_bin(p)) for p in P])
+        out["rets_find_t"] = attempt("find_bin(transformed=True)", lambda: [idx(h.find_bin(t if nd > 1 else float(t[0]), transformed=True)) for t in T])
+        out["find_changes"] = snap(h) != before
+        h2 = attempt("copy", lambda: h.copy())
+        if h2 is not None:
+            out["rets_hfill"] = attempt("fill", lambda: [idx(h2.fill(p, 1 if ws is None else ws[j])) for j, p in enumerate(P)])
+            out["h_fill"] = snap(h2)
+            h3 = h.copy()
+            ok = attempt("fill_n", lambda: (h3.fill_n(P, weights=None if W is None else W.copy()), True)[1])
+            out["h_filln"] = snap(h3) if ok else None
+        else:
+            out["rets_hfill"] = out["h_fill"] = out["h_filln"] = None
+        out["points_after"] = [[nrs(x) for x in row] for row in P]
+        # the class constructed explicitly with the edges the facade produced
+        pairs = pairs_of(out["h"])
+        E = [edges_of(ax) for ax in pairs]
+        out["explicit_ok"] = False
+        if all(e is not None for e in E):
+            out["edges"] = E
+            arrs = [np.array(e, dtype=float) for e in E]
+
+            def new():
+                return klass(arrs[0]) if nd == 1 else klass([a.copy() for a in arrs])
+            a = attempt("Class(edges)", new)
+            if a is not None:
+                out["rets_fill"] = attempt("Class.fill", lambda: [idx(a.fill(p, 1 if ws is None else ws[j])) for j, p in enumerate(P)])
+                out["fill"] = snap(a)
+                c = new(); ok1 = attempt("Class.fill_n", lambda: (c.fill_n(P, weights=None if W is None else W.copy()), True)[1])
+                e = new(); ok2 = attempt("Class.fill_n(transformed=True)",
+                                         lambda: (e.fill_n(T if nd > 1 else T[:, 0], weights=None if W is None else W.copy(), transformed=True), True)[1])
+                out["fill_n"], out["fill_n_t"] = (snap(c) if ok1 else None), (snap(e) if ok2 else None)
+                out["explicit_ok"] = bool(out["rets_fill"] is not None and ok1 and ok2)
+        else:
+            out["edges"] = None
+        return {"outs": out, "log": log}
+
+    def oracle_facade(self, case, io):
+        o = io["outs"]
+        klass = case["class"]
+        kinds = KIND[klass]
+        P = case["points"]
+        ws = case["weights"] if case["weights"] is not None else [1] * len(P)
+        true = [py_transform(klass, p) for p in P]
+        if o["facade"] is None:
+            # bins computed from data need two different values on that axis: refusing is then legitimate
+            for a, (s, kd) in enumerate(zip(case["spec"], kinds)):
+                vals = sorted(t[a] for t in true)
+                if data_dependent(s, kd) and (len(vals) < 2 or vals[-1] - vals[0] <= 1e-6 * max(1.0, abs(vals[-1]))):
+                    return []
+            return ["facade_refused: " + case["facade"] + " raised on valid input: " + "; ".join(io["log"][:1])]
+        fails = []
+        h = o["h"]
+        if h["_class"] != klass:
+            fails.append(f"facade_class: {case['facade']} returned a {h['_class']}")
+        pairs = pairs_of(h)
+        if len(pairs) != len(kinds):
+            return fails + [f"facade_axes: {case['facade']} returned {len(pairs)} axes, expected {len(kinds)}"]
+        E = o["edges"]
+        if E is None:
+            return fails + [f"facade_bins: {case['facade']} returned bins with gaps or no bins: {pairs}"[:300]]
+        # (a) requested bins
+        for a, (s, kd) in enumerate(zip(case["spec"], kinds)):
+            if s["t"] == "edges":
+                if E[a] != [float(x) for x in s["e"]]:
+                    fails.append(f"edges_given: axis {a} ({kd}) has edges {E[a]}, the edges passed were {s['e']}")
+            elif kd in ANGLE_FULL:
+                n = DEFAULT_ANGLE_BINS if s["t"] == "default" else s["n"]
+                lo, hi = s.get("range") or ANGLE_FULL[kd]
+                flo, fhi = Fraction(lo), Fraction(hi)
+                exp = [float(flo + (fhi - flo) * i / n) for i in range(n + 1)]
+                tol = 1e-12 * max(1.0, abs(lo), abs(hi))
+                if len(E[a]) != n + 1 or any(abs(g - x) > tol for g, x in zip(E[a], exp)):
+                    fails.append(f"angular_edges: axis {a} ({kd}) with {n} bins in range ({lo}, {hi}) has edges {E[a]}, equally spaced are {exp}"[:400])
+        if o["points_after"] != [[nrs(x) for x in p] for p in P]:
+            fails.append("input_modified: the caller's array of points was modified")
+        if o["find_changes"]:
+            fails.append("find_bin_mutates: find_bin changed the histogram")
+        # (b), (c) every point is counted where its true coordinates lie; points outside are missed
+        nbs = [len(e) - 1 for e in E]
+        bounds = expected_bounds(E, true, ws)
+        per_point, ambiguous = bounds[4], bounds[5]
+        total_w = sum(Fraction(w) for w in ws)
+        fails += check_counts(case["facade"], h, nbs, bounds, total_w)
+        for name in ("rets_find", "rets_find_t", "rets_hfill"):
+            if o[name] is None:
+                fails.append(f"paths_refused: {name} raised on the facade's histogram: " + "; ".join(io["log"][:2]))
+                continue
+            for j, got in enumerate(o[name]):
+                if len(nbs) == 1:
+                    where = "under" if got is not None and got < 0 else ("over" if got is not None and got >= nbs[0] else (None if got is None else (got,)))
+                else:
+                    where = "missed" if got is None else tuple(got)
+                if where not in per_point[j]:
+                    fails.append(f"wrong_bin: {name}: point {P[j]} with true coordinates {true[j]} is put in {got}, it belongs to {sorted(map(str, per_point[j]))}")
+                    break
+        # (d) the same histogram on every path
+        for name in ("rets_find_t", "rets_hfill"):
+            if o[name] is not None and o["rets_find"] is not None and o[name] != o["rets_find"]:
+                k = next(i for i, (x, y) in enumerate(zip(o[name], o["rets_find"])) if x != y)
+                fails.append(f"paths_index: {name}[{k}] = {o[name][k]} for point {P[k]}, find_bin gives {o['rets_find'][k]}")
+        if o["h_t"] is None:
+            fails.append("paths_refused: the facade with transformed=True raised: " + "; ".join(l for l in io["log"] if "transformed" in l)[:200])
+        else:
+            k = same_counts(h, o["h_t"])
+            if k:
+                fails.append(f"facade_transformed_{k}: {case['facade']} of the points gives {h[k]}, of their transformed coordinates with transformed=True {o['h_t'][k]}"[:500])
+        for name in ("h_fill", "h_filln"):
+            S = o[name]
+            if S is None:
+                fails.append(f"paths_refused: {name} of the facade's histogram raised: " + "; ".join(io["log"][:2]))
+                continue
+            for f in ("freq", "err2"):
+                if [Fraction(x) for x in S[f]] != [2 * Fraction(x) for x in h[f]]:
+                    fails.append(f"paths_{f}: entering the points again by {name[2:]} gives {S[f]}, twice the facade's {h[f]} expected"[:500])
+            if S["missed"] is not None and h["missed"] is not None and Fraction(S["missed"]) != 2 * Fraction(h["missed"]):
+                fails.append(f"paths_missed: entering the points again by {name[2:]} gives missed {S['missed']}, the facade {h['missed']}")
+        if not o["explicit_ok"]:
+            fails.append("paths_refused: the class constructed with the facade's edges, or its fill / fill_n, raised: " + "; ".join(io["log"][:2]))
+        else:
+            base = o["fill_n_t"]
+            for name in ("fill", "fill_n"):
+                k = same_counts(o[name], base)
+                if k:
+                    fails.append(f"paths_{k}: Class(edges).{name} gives {o[name][k]}, entering the transformed coordinates {base[k]}"[:500])
+            if ambiguous:
+                fails += check_counts("Class(edges).fill_n", o["fill_n"], nbs, bounds, total_w)
+            else:
+                k = same_counts(h, o["fill_n"], keys=("shape", "freq", "err2", "missed", "under", "over"))
+                if k:
+                    fails.append(f"facade_{k}: {case['facade']} gives {h[k]}, the class with the same edges + fill_n {o['fill_n'][k]}"[:500])
+        return fails[:6]
+
+    # ================================================================== kind "baddims": wrong dimensionality is refused
+    def gen_baddims(self, rng):
+        klass = rng.choice(list(SRC_DIM))
+        dim = rng.choice(SRC_DIM[klass])
+        nd = len(KIND[klass])
+        fn = FACADE_OF[klass]
+        axes = [[float(x) for x in axis_edges(rng, kd, True)] for kd in KIND[klass]]
+        pts = points(rng, dim, rng.choice([1, 3, 6]))
+        calls, tags = [], ["kind:baddims", "class:" + klass]
+
+        def col(n):
+            return rnd_data(rng, [n])
+
+        def wrong(valid):
+            """a wrong number of columns, the neighbours of a valid one three times as likely"""
+            ks = [k for k in range(1, 6) if k not in valid]
+            return rng.choice([k for k in ks for _ in range(3 if (k - 1 in valid or k + 1 in valid) else 1)])
+        # every method once (Cartesian input), for N-d classes also with transformed=True, then 2-4 calls of the facade
+        plan = ["fill", "find_bin", "fill_n", "transform"] + (["fill:t", "find_bin:t", "fill_n:t"] if nd > 1 else [])
+        rng.shuffle(plan)
+        plan += ["facade"] * rng.randint(2, 4)
+        for what in plan:
+            n = rng.choice([1, 2, 4])
+            if what in ("fill", "find_bin", "fill_n", "transform"):        # methods of the filled histogram, Cartesian input
+                op = what
+                if op in ("fill", "find_bin"):
+                    k = 0 if rng.random() < 0.15 else wrong(SRC_DIM[klass])
+                    c = {"op": op, "args": [rnd_data(rng, [k] if k else [])], "why": "bad:dims"}
+                elif rng.random() < 0.25:
+                    d = rng.choice(SRC_DIM[klass])
+                    shape = rng.choice([[1, n, d], [n, d, 1], [n, 1, d]])
+                    c = {"op": op, "args": [rnd_data(rng, shape)], "why": "bad:ndim3"}
+                else:
+                    c = {"op": op, "args": [rnd_data(rng, [n, wrong(SRC_DIM[klass])])], "why": "bad:dims"}
+            elif what.endswith(":t"):      # the same with transformed=True
+                op = what[:-2]
+                k = wrong((nd,))
+                c = {"op": op, "args": [rnd_data(rng, [k] if op != "fill_n" else [n, k])], "transformed": True, "why": "bad:dims_transformed"}
+            elif rng.random() < 0.12 and fn not in ("azimuthal", "radial"):
+                # observed only: the facades of the N-d classes refuse a `range=` keyword (not a matter of dimensionality)
+                pos = [col(n), col(n)] if fn == "polar" else [rnd_data(rng, [n, 3])]
+                c = {"op": "facade", "fn": fn, "args": pos, "kw": {"range": [0.0, 1.0]}, "why": "range_kw", "judged": False}
+            else:               # the facade function
+                t = False
+                if fn == "polar":
+                    pos = rng.choice([[rnd_data(rng, [n, 3]), col(n)], [rnd_data(rng, [n, 2]), rnd_data(rng, [n, 2])], [col(n), rnd_data(rng, [n, 2])],
+                                      [rnd_data(rng, [n, 2]), col(n)]])
+                    t = rng.random() < 0.3
+                    why = "bad:dims"
+                elif fn == "azimuthal":
+                    v = rng.randrange(5)
+                    pos = [[col(n)], [rnd_data(rng, [n, 3])], [rnd_data(rng, [n, 2]), col(n)], [rnd_data(rng, [n, 3]), col(n)], [col(n), col(n)]][v]
+                    t = v == 4
+                    why = "bad:superfluous" if v in (2, 4) else "bad:dims"
+                elif fn == "radial":
+                    v = rng.randrange(11)
+                    pos = [[col(n)], [rnd_data(rng, [n, 4])], [rnd_data(rng, [n, 4]), col(n)], [rnd_data(rng, [n, 3]), col(n)],
+                           [rnd_data(rng, [n, 3]), None, col(n)], [rnd_data(rng, [n, 3]), col(n), col(n)], [rnd_data(rng, [n, 2]), col(n)],
+                           [rnd_data(rng, [n, 2]), rnd_data(rng, [n, 2])], [col(n), col(n)], [col(n), None, col(n)], [col(n), col(n), col(n)]][v]
+                    t = v >= 8
+                    why = "bad:dims" if v in (0, 1, 2, 7) else "bad:superfluous"
+                else:
+                    t = rng.random() < 0.35
+                    if t:
+                        pos, why = [rnd_data(rng, [n, wrong((nd,))])], "bad:dims_transformed"
+                    elif rng.random() < 0.25:
+                        pos, why = [rnd_data(rng, rng.choice([[1, n, 3], [n, 3, 1], [n, 1, 3]]))], "bad:ndim3"
+                    else:
+                        pos, why = [rnd_data(rng, [n, wrong((3,))])], "bad:dims"
+                c = {"op": "facade", "fn": fn, "args": pos, "kw": {}, "why": why}
+                if t:
+                    c["transformed"] = True
+            calls.append(c)
+            tags += [c["why"], "op:" + c["op"]] + (["op:transformed=True"] if c.get("transformed") else [])
+        return {"kind": "baddims", "class": klass, "dim": dim, "axes": axes, "points": pts, "calls": calls, "tags": sorted(set(tags))}
+
+    def run_baddims(self, case):
+        from physt import special_histograms as sp
+        klass = getattr(sp, case["class"])
+        edges = [np.array(e) for e in case["axes"]]
+        nd = len(edges)
+        _, prefixes = FACADES[FACADE_OF[case["class"]]]
+        h = klass(edges[0]) if nd == 1 else klass([e for e in edges])
+        h.fill_n(np.array(case["points"], dtype=float))
+
+        def full(x):
+            s = implnd.snapn(x)
+            if nd == 1:
+                s["one_d"] = impl1.snap1(x)
+            s["meta"] = repr(sorted((str(k), repr(v)) for k, v in x.meta_data.items()))
+            return s
+
+        def arr(a):
+            return None if a is None else (float(a) if not isinstance(a, list) else np.array(a, dtype=float))
+        before = full(h)
+        res = []
+        for c in case["calls"]:
+            args = [arr(a) for a in c["args"]]
+            kw = {"transformed": True} if c.get("transformed") else {}
+            try:
+                if c["op"] == "facade":
+                    for pre, e in zip(prefixes, edges):      # explicit bins: nothing but the shape of the data can be refused
+                        kw[pre + "_bins" if pre else "bins"] = e.copy()
+                    if "range" in (c.get("kw") or {}):
+                        kw["range"] = tuple(c["kw"]["range"])
+                    getattr(sp, c["fn"])(*args, **kw)
+                elif c["op"] == "transform":
+                    klass.transform(*args)
+                else:
+                    getattr(h, c["op"])(*args, **kw)
+                st, exc = "accepted", None
+            except Exception as ex:
+                st, exc = "REFUSED", f"{type(ex).__name__}: {ex}"[:120]
+            after = full(h)
+            res.append({"status": st, "exc": exc, "changed": [k for k in after if after[k] != before.get(k)]})
+            before = after
+        dyn = sorted({"range_kw:" + r["status"] for c, r in zip(case["calls"], res) if c["why"] == "range_kw"})
+        return {"outs": {"calls": res, "prefilled": float(Fraction(before["total"])) > 0, "dyn_tags": dyn}, "log": [r["exc"] for r in res if r["exc"]]}
+
+    @staticmethod
+    def describe_call(case, c):
+        shapes = ", ".join("None" if a is None else ("scalar" if not isinstance(a, list) else "array of shape " + str(tuple(np.shape(a)))) for a in c["args"])
+        t = ", transformed=True" if c.get("transformed") else ""
+        if c["op"] == "facade":
+            return f"{c['fn']}({shapes}{t})"
+        return f"{case['class']}.{c['op']}({shapes}{t}) [Cartesian input has {SRC_DIM[case['class']]} columns, the histogram {len(case['axes'])} axes]"
+
+    def oracle_baddims(self, case, io):
+        fails = []
+        for c, r in zip(case["calls"], io["outs"]["calls"]):
+            if c.get("judged", True) and r["status"] != "REFUSED":
+                fails.append("accepted_invalid: input of the wrong dimensionality accepted: " + self.describe_call(case, c))
+        for c, r in zip(case["calls"], io["outs"]["calls"]):
+            if c.get("judged", True) and r["status"] == "REFUSED" and r["changed"]:
+                fails.append(f"refused_changed: the refused call {self.describe_call(case, c)} changed {r['changed']} of the histogram")
+        return fails[:6]
+
+    # ================================================================== kind "radius": the radius attribute does not touch the bins
+    def gen_radius(self, rng):
+        klass = rng.choice(RADIUS_CLASSES)
+        dim = SRC_DIM[klass][0]
+        via = rng.choice(["class", "class_kw", "facade"]) if klass != "AzimuthalHistogram" else rng.choice(["class", "class_kw"])
+        axes = [[float(x) for x in axis_edges(rng, kd, rng.random() < 0.7)] for kd in KIND[klass]]
+        return {"kind": "radius", "class": klass, "dim": dim, "axes": axes, "via": via,
+                "points": points(rng, dim, rng.choice([2, 5, 10])), "points2": points(rng, dim, rng.choice([1, 4])),
+                "radius0": rng.choice([2, 0.5, round(rng.uniform(0.1, 5), 2)]), "radius1": rng.choice([3, 1, 0.25, round(rng.uniform(0.1, 5), 2)]),
+                "tags": ["kind:radius", "class:" + klass, "radius:" + via]}
+
+    def run_radius(self, case):
+        from physt import special_histograms as sp
+        klass = getattr(sp, case["class"])
+        edges = [np.array(e) for e in case["axes"]]
+        nd = len(edges)
+        P, P2 = np.array(case["points"], dtype=float), np.array(case["points2"], dtype=float)
+        log, out = [], {"dyn_tags": []}
+
+        def build(with_radius):
+            kw = {"radius": case["radius0"]} if with_radius else {}
+            if case["via"] == "facade":
+                fn = FACADE_OF[case["class"]]
+                _, prefixes = FACADES[fn]
+                for pre, e in zip(prefixes, edges):
+                    kw[pre + "_bins"] = e.copy()
+                return getattr(sp, fn)(P.copy(), **kw)
+            x = klass(edges[0].copy(), **kw) if nd == 1 else klass([e.copy() for e in edges], **kw)
+            x.fill_n(P)
+            return x
+
+        def snap(x):
+            s = implnd.snapn(x)
+            return {k: s[k] for k in ("bins", "freq", "err2", "missed", "shape", "_class")}
+
+        def find(x):
+            r = []
+            for p in list(P) + list(P2):
+                i = x.find_bin(p)
+                r.append(None if i is None else [int(j) for j in np.atleast_1d(i)])
+            return r
+
+        def rad(x, name):
+            try:
+                return repr(np.asarray(x.radius).ravel()[:2].tolist())
+            except Exception as ex:
+                log.append(f"{name}: {type(ex).__name__}: {ex}"[:160]); out["dyn_tags"].append("radius:get_raised")
+                return None
+        ref = build(False)                                   # never touched by a radius
+        out["ref"], out["ref_find"] = snap(ref), find(ref)
+        out["radius_default"] = rad(ref, "get (default)")
+        h = build(case["via"] != "class")
+        out["built"], out["built_find"] = snap(h), find(h)
+        out["radius_built"] = rad(h, "get")
+        try:
+            h.radius = case["radius1"]
+        except Exception as ex:
+            log.append(f"set: {type(ex).__name__}: {ex}"[:160]); out["dyn_tags"].append("radius:set_raised")
+        out["radius_set"] = rad(h, "get after set")
+        out["after_set"], out["after_set_find"] = snap(h), find(h)
+        h.fill_n(P2); ref.fill_n(P2)
+        out["after_fill"], out["ref_fill"] = snap(h), snap(ref)
+        out["nonempty"] = any(Fraction(x) != 0 for x in out["ref"]["freq"])
+        return {"outs": out, "log": log}
+
+    def oracle_radius(self, case, io):
+        o = io["outs"]
+        fails = []
+        for name, a, b in (("constructing with radius", "built", "ref"), ("setting radius", "after_set", "built"),
+                           ("filling after radius was set", "after_fill", "ref_fill")):
+            k = same_counts(o[a], o[b], keys=("bins", "shape", "freq", "err2", "missed"))
+            if k:
+                fails.append(f"radius_changes_{k}: {name} = {case['radius0'] if a == 'built' else case['radius1']} gives {o[a][k]}, without it {o[b][k]}"[:500])
+        for a in ("built_find", "after_set_find"):
+            if o[a] != o["ref_find"]:
+                j = next(i for i, (x, y) in enumerate(zip(o[a], o["ref_find"])) if x != y)
+                fails.append(f"radius_changes_find_bin: point {(case['points'] + case['points2'])[j]} is found in {o[a][j]} ({a}), without a radius in {o['ref_find'][j]}")
+        return fails[:6]
+
     # ------------------------------------------------------------------ model: base ND histogram on the transformed coordinates
+    @staticmethod
+    def model_axes(case, io):
+        """edges of the explicitly constructed class the model follows: the case's own, or (facade kind) the ones the
+        facade produced; None when there is nothing the model supports"""
+        kind = case.get("kind", "special")
+        if kind == "special":
+            return case["axes"]
+        if kind == "facade" and io["outs"].get("explicit_ok"):
+            return io["outs"]["edges"]
+        return None
+
     def model_case(self, case, io):
+        E = self.model_axes(case, io)
+        if E is None:
+            return None
         T = io["outs"]["transformed"]
         if any(v is None for row in T for v in row):
             return None
-        nd = len(case["axes"])
+        nd = len(E)
         ws = case["weights"]
-        axes = [{"t": "static", "bins": [[rs(e[i]), rs(e[i + 1])] for i in range(len(e) - 1)], "ire": True} for e in case["axes"]]
+        axes = [{"t": "static", "bins": [[rs(e[i]), rs(e[i + 1])] for i in range(len(e) - 1)], "ire": True} for e in E]
         wenc = None if ws is None else [rs(w) for w in ws]
         if nd == 1:
             ops = [{"op": "empty", "out": 0, "binning": axes[0]}]
@@ -228,7 +909,8 @@ class C15:
 
     def diff(self, case, model_ok, io):
         o = io["outs"]
-        nd = len(case["axes"])
+        E = self.model_axes(case, io)
+        nd = len(E)
         n = len(case["points"])
         d = []
         final = model_ok[-1]["regs"]
@@ -239,7 +921,7 @@ class C15:
             if [Fraction(x) for x in m["err2"]] != [Fraction(x) for x in o[name]["err2"]]:
                 d.append(f"{name}.err2: model={m['err2']} impl={o[name]['err2']}")
         rets = [model_ok[1 + j]["ret"] for j in range(n)]
-        nb = len(case["axes"][0]) - 1
+        nb = len(E[0]) - 1
         for j, (a, b) in enumerate(zip(rets, o["rets_fill"])):
             a2 = (nb if a == "over" else a) if nd == 1 else a
             if a2 != b:
@@ -248,6 +930,9 @@ class C15:
 
     # ------------------------------------------------------------------ oracle
     def oracle(self, case, io):
+        return getattr(self, "oracle_" + case.get("kind", "special"))(case, io)
+
+    def oracle_special(self, case, io):
         o = io["outs"]
         fails = []
         klass = case["class"]
@@ -337,11 +1022,20 @@ class C15:
         return fails[:6]
 
     def nontrivial(self, case, io):
-        r = [str(x) for x in io["outs"]["rets_find_t"] if x is not None]
+        kind = case.get("kind", "special")
+        o = io["outs"]
+        if kind == "baddims":
+            return len(case["calls"]) >= 1 and o["prefilled"]
+        if kind == "radius":
+            return o["nonempty"]
+        if kind == "facade" and o["facade"] is None:
+            return False
+        key = "rets_find_t" if kind == "special" else "rets_find"
+        r = [str(x) for x in (o[key] or []) if x is not None]
         return len(set(r)) >= 2
 
     def tags(self, case, io):
-        return list(case["tags"]) + (["weights"] if case["weights"] else [])
+        return list(case["tags"]) + (["weights"] if case.get("weights") else []) + list(io["outs"].get("dyn_tags", []))
 
     def matches_known(self, finding, case):
         return True
@@ -350,14 +1044,25 @@ class C15:
         return []
 
     def shrink_candidates(self, case):
-        for j in range(len(case["points"])):
-            if len(case["points"]) <= 1:
-                break
-            c = copy.deepcopy(case)
-            del c["points"][j]
-            if c["weights"] is not None:
-                del c["weights"][j]
-            yield c
+        kind = case.get("kind", "special")
+        if kind == "baddims":
+            for j in range(len(case["calls"])):
+                if len(case["calls"]) <= 1:
+                    break
+                c = copy.deepcopy(case)
+                del c["calls"][j]
+                yield c
+        for key in ("points", "points2"):
+            if key not in case:
+                continue
+            for j in range(len(case[key])):
+                if len(case[key]) <= 1:
+                    break
+                c = copy.deepcopy(case)
+                del c[key][j]
+                if key == "points" and c.get("weights") is not None:
+                    del c["weights"][j]
+                yield c
 
 
 PROP = C15()
